@@ -160,6 +160,8 @@ type Sim struct {
 	FinalHeap []int        // bars still in the container at the end
 	LateSucc  []int        // successors parked behind an already flushed predecessor
 	Overwrote []int        // successors overwritten in the queue map
+	PopTick   map[int]int  // bar -> render cycle (1-based) in which it was moved to the top
+	Fills     map[int]int  // bar -> number of times its filler was called
 	Errored   bool         // a filler/extender fault ended rendering
 	ErrBar    int
 	Clipped   bool // some frame could not show every bar of the container
@@ -168,7 +170,8 @@ type Sim struct {
 func (s *Sim) fail(why string) { s.OK = false; s.Why = why }
 
 func Simulate(sc *Scenario) *Sim {
-	s := &Sim{OK: true, Displayed: map[int]bool{}}
+	s := &Sim{OK: true, Displayed: map[int]bool{}, PopTick: map[int]int{}, Fills: map[int]int{}}
+	ticks := 0
 	if sc.Cfg.Refresh != "manual" {
 		s.fail("not manual refresh")
 		return s
@@ -279,6 +282,7 @@ func Simulate(sc *Scenario) *Sim {
 				// frames are rendered into a discarding writer: nothing observable,
 				// but shutdown counters advance
 			}
+			ticks++
 			f := MFrame{Prio: map[int]int{}, SD: map[int]int{}, State: map[int]MBar{}, Rows: map[int]int{}, Height: height, ExtRev: map[int]bool{}}
 			var shown []int
 			for i, x := range s.Bars {
@@ -377,6 +381,7 @@ func Simulate(sc *Scenario) *Sim {
 						pushes = append(pushes, succ)
 					} else if sc.Cfg.Pop && !x.spec.NoPop {
 						popOld[i] = x.prio
+						s.PopTick[i] = ticks
 						x.prio = popPrio
 						popPrio++
 						x.popped = true
@@ -439,6 +444,7 @@ func Simulate(sc *Scenario) *Sim {
 		if x.added && x.inHeap {
 			s.FinalHeap = append(s.FinalHeap, i)
 		}
+		s.Fills[i] = x.fills
 	}
 	return s
 }
